@@ -95,6 +95,8 @@ pub struct Spec {
     pub storage: String,
     pub retention: u64,
     pub dir: std::path::PathBuf,
+    /// additional custom extension types this client supports (capabilities)
+    pub exts: Vec<u16>,
 }
 
 pub struct Parts {
@@ -136,6 +138,7 @@ pub fn make_client(spec: &Spec, parts: &Parts, suite: CipherSuite) -> Client<imp
         .mls_rules(VRules(parts.rules.clone()))
         .custom_proposal_type(mls_rs::group::proposal::ProposalType::new(0xF001))
         .extension_type(mls_rs::extension::ExtensionType::new(0xF010))
+        .extension_types(spec.exts.iter().map(|e| mls_rs::extension::ExtensionType::new(*e)))
         .signing_identity(parts.identity.clone(), parts.signer.clone(), suite)
         .build()
 }
@@ -299,6 +302,7 @@ impl<C: MlsConfig, E: ExternalMlsConfig + Clone> World<C, E> {
             "stored_epochs": stored,
             "stored_max": m.gstore.probe_max(&gid),
             "stored_state": stored_state.as_ref().map(|s| it.id(s)),
+            "kp_store": m.kpstore.inner.key_packages().iter().map(|(r, _)| hex::encode(r)).collect::<Vec<_>>(),
             "sub": m.sub.as_ref().map(|sg| {
                 let names: Vec<String> = sg.roster().members_iter().map(|mm| mm.signing_identity.credential.as_basic().map(|b| String::from_utf8_lossy(&b.identifier).to_string()).unwrap_or_default()).collect();
                 json!({"epoch": sg.current_epoch(), "gid": hex::encode(sg.group_id()), "members": names,
@@ -385,6 +389,9 @@ impl<C: MlsConfig, E: ExternalMlsConfig + Clone> World<C, E> {
             "create" => {
                 // optional ExternalSendersExt: identities of the named (configured) parties
                 let mut gce = ExtensionList::new();
+                for t in op["ctx_ext_types"].as_array().cloned().unwrap_or_default() {
+                    gce.set(mls_rs::Extension::new(mls_rs::extension::ExtensionType::new(t.as_u64().unwrap_or(0xF010) as u16), vec![0u8]));
+                }
                 if let Some(names) = op["ext_senders"].as_array() {
                     let ids: Vec<SigningIdentity> = names.iter().filter_map(|n| n.as_str()).filter_map(|n| self.members.get(n).map(|m| m.identity.clone())).collect();
                     mls!(gce.set_from(mls_rs::extension::built_in::ExternalSendersExt::new(ids)));
@@ -399,10 +406,16 @@ impl<C: MlsConfig, E: ExternalMlsConfig + Clone> World<C, E> {
             }
             "kp" => {
                 let m = self.members.get_mut(&who).ok_or("no such member")?;
-                let kp = mls!(m.client.generate_key_package_message(ExtensionList::new(), ExtensionList::new(), None));
+                let mut kpe = ExtensionList::new();
+                if op["last_resort"].as_bool().unwrap_or(false) {
+                    mls!(kpe.set_from(mls_rs::extension::recommended::LastResortKeyPackageExt));
+                }
+                let kp = mls!(m.client.generate_key_package_message(kpe, ExtensionList::new(), None));
                 self.msgs.insert(id, mls!(kp.to_bytes()));
                 let init = kp.clone().into_key_package().map(|k| self.intern.id(&k.hpke_init_key));
-                Ok(json!({"init": init}))
+                // reference of the package in the store: the new entry
+                let refs: Vec<String> = m.kpstore.inner.key_packages().iter().map(|(r, _)| hex::encode(r)).collect();
+                Ok(json!({"init": init, "store": refs}))
             }
             "propose" => {
                 let pk = op["kind"].as_str().unwrap_or("");
@@ -431,8 +444,18 @@ impl<C: MlsConfig, E: ExternalMlsConfig + Clone> World<C, E> {
                     "resumption" => mls!(grp!().propose_resumption_psk(op["epoch"].as_u64().unwrap_or(0), aad)),
                     "gce" => {
                         let mut el = ExtensionList::new();
-                        if let Some(d) = op["ext_data"].as_str() {
-                            el.set(mls_rs::Extension::new(mls_rs::extension::ExtensionType::new(0xF010), hex::decode(d).unwrap_or_default()));
+                        let data = hex::decode(op["ext_data"].as_str().unwrap_or("")).unwrap_or_default();
+                        match op["ext_types"].as_array() {
+                            Some(ts) => {
+                                for t in ts {
+                                    el.set(mls_rs::Extension::new(mls_rs::extension::ExtensionType::new(t.as_u64().unwrap_or(0xF010) as u16), data.clone()));
+                                }
+                            }
+                            None => {
+                                if op["ext_data"].as_str().is_some() {
+                                    el.set(mls_rs::Extension::new(mls_rs::extension::ExtensionType::new(0xF010), data));
+                                }
+                            }
                         }
                         mls!(grp!().propose_group_context_extensions(el, aad))
                     }
@@ -502,7 +525,14 @@ impl<C: MlsConfig, E: ExternalMlsConfig + Clone> World<C, E> {
                 }
                 if let Some(d) = gce {
                     let mut el = ExtensionList::new();
-                    el.set(mls_rs::Extension::new(mls_rs::extension::ExtensionType::new(0xF010), d));
+                    match op["ext_types"].as_array() {
+                        Some(ts) => {
+                            for t in ts {
+                                el.set(mls_rs::Extension::new(mls_rs::extension::ExtensionType::new(t.as_u64().unwrap_or(0xF010) as u16), d.clone()));
+                            }
+                        }
+                        None => el.set(mls_rs::Extension::new(mls_rs::extension::ExtensionType::new(0xF010), d)),
+                    }
                     b = mls!(b.set_group_context_ext(el));
                 }
                 if let Some(d) = custom {
@@ -1085,6 +1115,7 @@ pub fn run_world<C: MlsConfig, E: ExternalMlsConfig + Clone + 'static>(script: &
             storage: m["storage"].as_str().unwrap_or("mem").to_string(),
             retention: m["retention"].as_u64().unwrap_or(3),
             dir: dir.to_path_buf(),
+            exts: m["exts"].as_array().cloned().unwrap_or_default().iter().filter_map(|v| v.as_u64()).map(|v| v as u16).collect(),
         };
         let parts = match make_parts(&spec, suite) {
             Ok(p) => p,
